@@ -207,3 +207,58 @@ func (c *Checker) reports(b *Battle, lis *listener, hs []g.Warrior, heads []int6
 		}
 	}
 }
+
+// manyResets: one simulator and one StateRecorder through hundreds of
+// battles separated by Reset; after every Reset every address must read as
+// empty with owner -1, whatever earlier battles did to it.
+func (c *Checker) manyResets(M uint64, n int) {
+	rep := c.Rep
+	rep.States++
+	b := &Battle{M: M, R: M, W: M, P: 2, C: 4, ResetAt: -1}
+	al := Alphabet(M)
+	b.Ws = []WSpec{{[]g.Instruction{al[8], al[5]}, 0, 0}, {[]g.Instruction{al[3]}, 0, 4}}
+	var pan string
+	func() {
+		defer func() {
+			if r := recover(); r != nil {
+				pan = fmt.Sprint(r)
+			}
+		}()
+		sim, err := g.NewReportingSimulator(b.config())
+		if err != nil {
+			pan = err.Error()
+			return
+		}
+		sr := g.NewStateRecorder(sim)
+		sim.AddReporter(sr)
+		for _, w := range b.Ws {
+			sim.AddWarrior(&g.WarriorData{Code: w.Code, Start: w.Start})
+		}
+		for k := 0; k < n; k++ {
+			// only the first battle and every 97th touch the low addresses
+			off := uint64(0)
+			if k%97 != 0 {
+				off = 5
+			}
+			sim.SpawnWarrior(0, g.Address(off))
+			sim.SpawnWarrior(1, g.Address(off+2))
+			sim.RunCycle()
+			sim.RunCycle()
+			rep.Transitions += 2
+			sim.Reset()
+			rep.Traces++
+			for a := uint64(0); a < M; a++ {
+				if st, own := sr.GetMemState(g.Address(a)); st != g.CoreEmpty || own != -1 {
+					c.fail("C15", "recorder-after-reset", b, func() string {
+						return fmt.Sprintf("after reset number %d the recorder shows cell %d as (state %d, warrior %d)", k+1, a, st, own)
+					})
+					return
+				}
+			}
+		}
+	}()
+	if pan != "" {
+		c.fail("C15", "panic", b, func() string { return "many resets: " + pan })
+	}
+	rep.Count("c15:reset-series")
+}
